@@ -46,6 +46,7 @@ def main():
     names = sorted(n for n in os.listdir(os.path.join(HERE, 'seeded')) if os.path.isdir(os.path.join(HERE, 'seeded', n)))
     if args:
         names = [n for n in names if any(n.startswith(a) for a in args)]
+    prior = list({r[0]: r for r in prior}.values())      # a later log overrides an earlier row of the same change
     done = {r[0] for r in prior}
     names = [n for n in names if n not in done]
     rows = list(prior)
